@@ -9,6 +9,7 @@ CONSTANTS
   OddKinds = {"create_odd", "create_dot"}
   MaxSetup = 4
   MaxProbes = 2
+  MaxAfter = 1
   DotNameHandled = TRUE
   RpcPosCheckedFirst = TRUE
   Utf8LabelsHandled = TRUE
